@@ -6,10 +6,10 @@ from . import C39_corpus as K
 
 TITLE = "Behaviour is identical across build configurations"
 EXTRACTS = ["CmpFloat"]
-RULE = ("three modules compiled in every cell of a configuration matrix: {C, C++} x {-O0, -O1, -O2, -O3} x feature macros "
+RULE = ("five modules compiled in every cell of a configuration matrix: {C, C++} x {-O0, -O1, -O2, -O3} x feature macros "
         "(PYLONG/UNICODE/PYLIST internals, vectorcall/fastcall, borrowed refs, safe macros/size, type slots/specs, thread "
         "state, Limited API) x string compression x semantics-neutral directives.  c39m: one differential program (closures, "
-        "generators, classes, exceptions, literals beyond the string-split limit).  c39ops: the sources AND operand pools of "
+        "generators, classes, exceptions, literals beyond the string-split limit).  c39cv, c39cmp, c39ar: the sources AND operand pools of "
         "the properties that own the macro-selected helpers - C19 PyObjectCompare (int-int by sign x digit count x differing "
         "digit position; float-int / int-float by float sign x magnitude class (below 2^30, 2^53, 2^63, beyond, inf, nan) x "
         "int sign x digit count 0,1,2,3,4+, equal and adjacent values), C02 constant binops/compares over ints of every "
@@ -179,11 +179,13 @@ def cells(quick):
     cell("binding_false_noopt", directives={"binding": False, "always_allow_keywords": False, "optimize.use_switch": False,
                                              "optimize.unpack_method_calls": False, "auto_pickle": False})
     if quick:
-        # budget: the table modules are compiled at -O0 in the quick tier (the optimisation level is varied for
-        # them in the thorough tier) and left out of the two cells whose macro cannot matter to them
+        # budget: the table modules are compiled at -O0 in the quick tier and only in the cells of the feature
+        # macros that select helper bodies (language, optimisation level and directives are varied for them in
+        # the thorough tier)
         for c in out:
             c["table_cflags"] = ["-O0"]
-            c["tables"] = c["name"] not in ("O0", "no_compress")
+            c["tables"] = {"base": True, "no_pylong_internals": True, "limited_api": True,
+                           "no_vectorcall": ("c39x",)}.get(c["name"], False)      # (calls are made by c39x only)
     if not quick:
         cell("O3", cflags=["-O3"])
         cell("no_unicode_internals", macros=["CYTHON_USE_UNICODE_INTERNALS=0"])
@@ -195,12 +197,20 @@ def cells(quick):
         cell("compress_1", macros=["CYTHON_COMPRESS_STRINGS=1"])
         cell("compress_2", macros=["CYTHON_COMPRESS_STRINGS=2"])
         cell("compress_3", macros=["CYTHON_COMPRESS_STRINGS=3"])
+        # (CYTHON_USE_EXC_INFO_STACK=0 is not a switch of the property and not a CPython configuration: it needs
+        #  CYTHON_FAST_THREAD_STATE=0 to compile at all and then closing a suspended generator segfaults on 3.12)
         cell("no_internals_at_all", macros=["CYTHON_USE_PYLONG_INTERNALS=0", "CYTHON_USE_UNICODE_INTERNALS=0", "CYTHON_USE_PYLIST_INTERNALS=0",
-                                            "CYTHON_USE_TYPE_SLOTS=0", "CYTHON_FAST_THREAD_STATE=0", "CYTHON_FAST_PYCALL=0", "CYTHON_USE_EXC_INFO_STACK=0"])
+                                            "CYTHON_USE_TYPE_SLOTS=0", "CYTHON_FAST_THREAD_STATE=0", "CYTHON_FAST_PYCALL=0"])
         cell("clang", compiler="clang")
         cell("limited_api_cpp", cplus=True, macros=["Py_LIMITED_API=0x030C0000", "CYTHON_LIMITED_API=1"])
         cell("binding_true_kw", directives={"binding": True, "always_allow_keywords": True, "optimize.inline_defnode_calls": False})
+        for c in out:
+            # the table modules do not depend on the string-table compression; -O2 / C++ -O3 are covered by -O3 / C++ -O1
+            c["tables"] = c["name"] not in ("no_compress", "compress_1", "compress_2", "compress_3", "O2", "cpp_O3")     # (bool)
     return out
+
+
+TABLE_MODS = K.OPS_MODULES + ("c39x",)
 
 
 def _translate(args):
@@ -216,60 +226,70 @@ def _translate(args):
     return name, c_file, None
 
 
-def build_matrix(ctx, cs, sources, jobs=8):
-    """translate each module once per (language, directives) group, compile it once per cell.
-    -> {cell: {module: error text or None}}"""
+def cell_modules(c, sources):
+    """the modules a cell builds: c39m everywhere, the table modules where the cell says so"""
+    tm = c.get("tables", True)
+    if tm is True:
+        return list(sources)
+    if not tm:
+        return ["c39m"]
+    return ["c39m"] + [m for m in sources if m in tm]
+
+
+def build_matrix(ctx, cs, sources, jobs=12):
+    """translate each module once per (language, directives) group that needs it, compile it once per cell that
+    needs it; a compile job starts as soon as its translation is there.  -> {cell: {module: error text or None}}"""
     groups = {}
     for c in cs:
         key = (c["cplus"], json.dumps(c["directives"], sort_keys=True))
         groups.setdefault(key, []).append(c)
-    tasks = []
-    for gi, (key, members) in enumerate(groups.items()):
-        for name, source in sources.items():
-            tasks.append((name, source, os.path.join(ctx.workdir, "tr%d" % gi), members[0]["directives"], key[0]))
     status = {c["name"]: {} for c in cs}
-    with cf.ThreadPoolExecutor(max_workers=jobs) as ex:
-        tr = list(ex.map(_translate, tasks))
-        cfiles = {}
-        for (name, source, wd, _d, _p), (_n, c_file, err) in zip(tasks, tr):
-            cfiles[(wd, name)] = (c_file, err)
+    for c in cs:
+        for m in sources:
+            if m not in cell_modules(c, sources):
+                status[c["name"]][m] = "not built in this cell"
 
-        def cc_one(job):
-            c, name, c_file = job
-            wd = os.path.join(ctx.workdir, c["name"])
-            os.makedirs(wd, exist_ok=True)
-            so = os.path.join(wd, name + cybuild.EXT)
-            flags = c["cflags"] if name == "c39m" else c.get("table_cflags", c["cflags"])
-            rc, err = cybuild.cc(c_file, so, flags + c.get("extra_cflags", []), c["macros"], c["cplus"], c.get("compiler"),
-                                 c.get("ldflags"))
-            return c["name"], name, (None if rc == 0 else err[-1500:])
-        jobs_cc = []
+    def cc_one(c, name, c_file):
+        wd = os.path.join(ctx.workdir, c["name"])
+        os.makedirs(wd, exist_ok=True)
+        so = os.path.join(wd, name + cybuild.EXT)
+        flags = c["cflags"] if name == "c39m" else c.get("table_cflags", c["cflags"])
+        rc, err = cybuild.cc(c_file, so, flags + c.get("extra_cflags", []), c["macros"], c["cplus"], c.get("compiler"), c.get("ldflags"))
+        return c["name"], name, (None if rc == 0 else err[-1500:])
+
+    with cf.ThreadPoolExecutor(max_workers=jobs) as ex:
+        trs = {}
+        # the big modules first: their translation is the critical path
+        order = sorted(sources, key=lambda m: -len(sources[m]))
         for gi, (key, members) in enumerate(groups.items()):
             wd = os.path.join(ctx.workdir, "tr%d" % gi)
-            for c in members:
-                c["trdir"] = wd
-                for name in sources:
-                    if name != "c39m" and not c.get("tables", True):
-                        status[c["name"]][name] = "not built in this cell"
-                        continue
-                    c_file, err = cfiles[(wd, name)]
-                    if err is not None:
-                        status[c["name"]][name] = "cython: " + err
-                    else:
-                        jobs_cc.append((c, name, c_file))
-        for cell, name, err in ex.map(cc_one, jobs_cc):
+            for name in order:
+                users = [c for c in members if name in cell_modules(c, sources)]
+                if users:
+                    fut = ex.submit(_translate, (name, sources[name], wd, members[0]["directives"], key[0]))
+                    trs[fut] = users
+        ccs = []
+        for fut in cf.as_completed(list(trs)):
+            name, c_file, err = fut.result()
+            for c in trs[fut]:
+                if err is not None:
+                    status[c["name"]][name] = "cython: " + err
+                else:
+                    ccs.append(ex.submit(cc_one, c, name, c_file))
+        for fut in ccs:
+            cell, name, err = fut.result()
             status[cell][name] = err
     return status
 
 
 def corpus_spec(ctx, quick):
-    ops_src, ops_py, _F = K.ops_source()
+    ops_src, ops_py = K.ops_sources()
     ops_tab, ops_calls = K.ops_tables(ctx.rng, quick)
     x_tab = K.x_tables(ctx.rng, quick)
     tables = dict(ops_tab)
     tables.update(x_tab)
-    calls = [["c39ops", f, mode, t] for f, mode, t in ops_calls] + [["c39x", f, mode, t] for f, mode, t in K.x_functions()]
-    return {"c39ops": ops_src, "c39x": K.XSRC}, ops_py, {"support": K.SUPPORT, "tables": tables, "calls": calls}
+    calls = [[m, f, mode, t] for m, f, mode, t in ops_calls] + [["c39x", f, mode, t] for f, mode, t in K.x_functions()]
+    return dict(ops_src, c39x=K.XSRC), ops_py, {"support": K.SUPPORT, "tables": tables, "calls": calls}
 
 
 def run_worker(ctx, wd, spec, tag):
@@ -345,7 +365,7 @@ def check_cmp_model(ctx, spec, results):
         q, where = [], []
         for ci, call in enumerate(spec["calls"]):
             m, f, mode, tnames = call
-            if m != "c39ops" or mode != "same" or not f.startswith("o_") or not f.endswith("_oo") or rows[ci] is None:
+            if m != "c39cmp" or mode != "same" or not f.startswith("o_") or not f.endswith("_oo") or rows[ci] is None:
                 continue
             oi = ops6.index(f.split("_")[1])
             for k, (a, b, same) in enumerate(spec["tables"][tnames[0]]):
@@ -364,6 +384,28 @@ def check_cmp_model(ctx, spec, results):
                 bad += 1
                 ctx.corr_break("pyobject_compare:%s" % cell, dict(row_input(spec, spec["calls"][ci], k), cell=cell, func=spec["calls"][ci][1]),
                                got, "model(%s)=%s" % (cfg, want))
+
+
+NO_SLOTS_CELLS = ("limited_api", "limited_api_cpp", "no_type_slots", "no_internals_at_all")
+NO_KW_CELLS = ("binding_false_noopt",)
+
+
+def classify(cell, module, func, inp, base_res, cell_res):
+    """class of a difference between a cell and the base cell"""
+    args = inp.get("args") or []
+    if module == "c39cv" and func.startswith(("arg_", "asg_")) and cell in NO_SLOTS_CELLS and len(args) == 1 \
+            and isinstance(args[0], dict) and "py" in args[0] and base_res == "!TypeError":
+        # __Pyx_PyNumber_Long: tp_as_number->nb_int with type slots, PyNumber_Long() without
+        return "object_without_nb_int_to_c_integer_depends_on_type_slots"
+    if cell in NO_KW_CELLS and module == "c39x" and func in ("c_call", "fa_call", "fa_call_direct"):
+        # always_allow_keywords=False: METH_O / METH_NOARGS functions reject keyword arguments
+        if func == "c_call" or (args and args[0] in ({"s": [ord(c) for c in "fa1"]}, {"s": [ord(c) for c in "m.m1"]})):
+            return "always_allow_keywords_false_one_argument_function_rejects_keyword"
+    if module == "c39x" and func == "n_binop_obj" and cell in ("limited_api", "limited_api_cpp") and len(args) == 2 \
+            and sorted(json.dumps(a) for a in args) == ['{"f": "-0x0.0p+0"}', '{"i": "0"}']:
+        # PyNumberBinop: `int 0 + float` returns the float operand; the Limited API build calls PyNumber_Add
+        return "int_zero_plus_negative_zero_float"
+    return "differs_from_base:" + cell
 
 
 def run(ctx):
@@ -391,20 +433,20 @@ def run(ctx):
         res = cybuild.call_cases(wd, [["m." + f, a] for f, a in CALLS], setup="import c39m as m", alarm=30)
         return [("exc:" + r["e"]) if "e" in r else json.dumps(r.get("r"), sort_keys=True) for r in res]
 
-    # ---- c39ops / c39x: table-driven
+    # ---- c39cv, c39cmp, c39ar, c39x: table-driven
     def run_t(c):
         wd = os.path.join(ctx.workdir, c["name"])
-        mods = [m for m in ("c39ops", "c39x") if not status[c["name"]].get(m)]
+        mods = [m for m in TABLE_MODS if not status[c["name"]].get(m)]
         sp = dict(spec, modules=mods)
         return run_worker(ctx, wd, sp, "t")
 
     def run_py():
         wd = os.path.join(ctx.workdir, "cpython")
-        return run_worker(ctx, wd, dict(spec, modules=[], python_source={"c39ops": ops_py}), "py")
+        return run_worker(ctx, wd, dict(spec, modules=[], python_source=ops_py), "py")
 
     with cf.ThreadPoolExecutor(max_workers=8) as ex:
         fm = {c["name"]: ex.submit(run_m, c) for c in cs if not status[c["name"]].get("c39m")}
-        ft = {c["name"]: ex.submit(run_t, c) for c in cs if c.get("tables", True)}
+        ft = {c["name"]: ex.submit(run_t, c) for c in cs if c.get("tables", True)}     # (True or a tuple of modules)
         fpy = ex.submit(run_py)
         results = {k: f.result() for k, f in fm.items()}
         tres = {k: f.result() for k, f in ft.items()}
@@ -433,7 +475,7 @@ def run(ctx):
             ctx.fail("cell_worker_dies:" + name, {"cell": name, "last_function_started": last}, err[-300:], "the corpus runs to the end as in the base cell")
             rows = rows + [None] * (len(spec["calls"]) - len(rows))
         tabres[name] = rows
-        nfail = 0
+        nfail = {}
         for ci, call in enumerate(spec["calls"]):
             m, f, mode, tnames = call
             a, b = brows[ci], rows[ci]
@@ -443,16 +485,20 @@ def run(ctx):
             ctx.count("cell/%s/%s/%s" % (name, m, f.split("_")[0]), n, distinct_sigs=[(name, m, f, n)])
             if a == b:
                 continue
+            seen = set()
             for k in range(min(len(a), len(b))):
                 if a[k] != b[k]:
-                    nfail += 1
-                    if nfail <= 6:
-                        inp = dict(row_input(spec, call, k), cell=name, module=m, func=f, row=k)
+                    inp = dict(row_input(spec, call, k), cell=name, module=m, func=f, row=k)
+                    klass = classify(name, m, f, inp, a[k], b[k])
+                    if klass in seen:
+                        continue            # one report per function and class
+                    seen.add(klass)
+                    nfail[klass] = nfail.get(klass, 0) + 1
+                    if nfail[klass] <= 4:
                         note = ""
                         if pyrows and ci < len(pyrows) and pyrows[ci] is not None:
                             note = "CPython running the same source: %s" % pyrows[ci][k][:200]
-                        ctx.fail("differs_from_base:" + name, inp, b[k][:300], a[k][:300], note=note)
-                    break
+                        ctx.fail(klass, inp, b[k][:300], a[k][:300], note=note)
     check_cmp_model(ctx, spec, {k: v for k, v in tabres.items()})
     ctx.extra["cells_compared"] = sorted(results)
     ctx.extra["cells_skipped"] = skipped
@@ -548,7 +594,7 @@ def coverage_report(ctx, sources, spec):
 
     def run_cell(c):
         wd = os.path.join(ctx.workdir, c["name"])
-        mods = [m for m in ("c39ops", "c39x") if not status[c["name"]].get(m)]
+        mods = [m for m in TABLE_MODS if not status[c["name"]].get(m)]
         if not status[c["name"]].get("c39m"):
             cybuild.call_cases(wd, [["m." + f, a] for f, a in CALLS], setup="import c39m as m", alarm=60)
         run_worker(ctx, wd, dict(spec, modules=mods), "cov")
